@@ -19,7 +19,7 @@ _TUPLE_RE = re.compile(r'^<<"([A-Z_]+)", (.*)>>$')
 
 
 def run_tlc(module, cfg_text, workers=1, simulate=None, depth=None, seed=None, timeout=3600,
-            env=None, coverage=False, extra=None, spec_dirs=None, dfid=None, keep=False, defs=None):
+            env=None, coverage=False, extra=None, spec_dirs=None, dfid=None, keep=False, defs=None, mc_extends=()):
     """Runs TLC on spec/<module>.tla with the given cfg text.
 
     Returns dict(ok, violated, exports {TAG: [decoded json]}, tuples {TAG: [raw str]},
@@ -37,7 +37,7 @@ def run_tlc(module, cfg_text, workers=1, simulate=None, depth=None, seed=None, t
             base = module
             module = 'MC_' + base
             with open(os.path.join(work, module + '.tla'), 'w') as f:
-                f.write(f'---- MODULE {module} ----\nEXTENDS {base}\n')
+                f.write(f'---- MODULE {module} ----\nEXTENDS ' + ', '.join([base] + list(mc_extends)) + '\n')
                 for k, v in defs.items():
                     f.write(f'MC_{k} == {v}\n')
                 f.write('====\n')
